@@ -264,6 +264,12 @@ fn phase1(
                 if got_pin != want_pin {
                     rep.violation("C03", "successor_pinned_wrong", json!({"fen": fen, "move": [f, t, p], "expected": want_pin, "observed": got_pin}));
                 }
+                let got_chk2 = bb_squares(*n2.checkers());
+                let got_pin2 = bb_squares(*n2.pinned() & *n2.color_combined(n2.side_to_move()));
+                if got_chk2 != want_chk || got_pin2 != want_pin {
+                    rep.violation("C03", "successor_derived_state_wrong_via_make_move_into", json!({"fen": fen, "move": [f, t, p],
+                        "expected": [want_chk, want_pin], "observed": [got_chk2, got_pin2]}));
+                }
             }
             match Board::try_from(&pos_to_builder(&ex)) {
                 Ok(fresh) => {
